@@ -216,7 +216,10 @@ def _gibbs(ctx, rbm, nv, nh, na, cond_h, cond_v, cond_a):
     pur = na > 0
     earlier = []          # (result object, snapshot of its values) of every previous call on this RBM
     for k in (0, 1, 2, 3):
-        for overwrite in (False, True):
+        for ow_arg in (False, True, "left at its default"):
+            overwrite = ow_arg is True          # the documented default is overwrite=False
+            if ow_arg not in (False, True) and k == 3:
+                continue
             n_pat = 1 if k == 0 else (4 if ctx.tier == "quick" else 8)
             for pat in range(n_pat):
                 draws = []
@@ -229,10 +232,10 @@ def _gibbs(ctx, rbm, nv, nh, na, cond_h, cond_v, cond_a):
                 st.BERNOULLI_HOOK[0] = hook
                 s0 = _c(starts)
                 keep = s0.clone()
-                tag = "[k=%d overwrite=%s pattern=%d]" % (k, overwrite, pat)
+                tag = "[k=%d overwrite=%s pattern=%d]" % (k, ow_arg, pat)
                 try:
                     with _only_bernoulli():
-                        out = rbm.gibbs_steps(k, s0, overwrite=overwrite)
+                        out = rbm.gibbs_steps(k, s0, overwrite=overwrite) if ow_arg in (False, True) else rbm.gibbs_steps(k, s0)
                 except _ForeignDraw as e:
                     # units drawn by comparing the conditional with noise of the library's own making: the law of the draw is
                     # then that noise's, not Bernoulli(p) (single-precision uniforms put mass 2^-24 where p is 1e-13)
